@@ -61,6 +61,17 @@ Theorem C12_call_delivered_stream : forall voc ms a kw, ms_wf ms -> args_guarded
 Proof. exact c12_call_stream. Qed.
 Print Assumptions C12_call_delivered_stream.
 
+(* ... and on the complete `call` sequence as CallUnslicer + ArgumentUnslicer consume it: request id, object id, method name
+   (looked up in the RemoteInterface of the addressed object), arguments: the addressed method runs with the same objects *)
+Theorem C12_call_sequence_delivered : forall voc env r c mname t tbl ms a kw,
+  (negb (r =? 0) && memZ r (be_active env)) = false -> 0 <= c -> utf8_valid mname = true ->
+  assocZ c (be_objs env) = Some t -> t_iface t = Some tbl -> assocZ (name_code mname) tbl = Some ms ->
+  ms_wf ms -> args_guarded ms a kw ->
+  forall p k kb, send_call voc ms a kw = Some (p, k) -> code_kws kb = k -> names_text kb = true ->
+  recv_call_stream env (call_kids r c mname (enc_args p kb)) = QInvoke c (Some (name_code mname)) ms a kw.
+Proof. exact call_delivered. Qed.
+Print Assumptions C12_call_sequence_delivered.
+
 (* "(and symmetrically for results)": a result that passes the check the target's Broker applies before sending
    (methodSchema.checkResults(res, False) in _callFinished) is accepted by the caller's AnswerUnslicer under the same
    result constraint, and the callRemote callback receives it *)
